@@ -37,7 +37,11 @@ CONSTANTS
   UnlockFirst,          \* FALSE | TRUE  (lock released before guards are restored)
   FlushEntry,           \* TRUE | FALSE  (entry writes are followed by a flush)
   UnmapOnDrop,          \* TRUE | FALSE
-  Linear                \* TRUE: installation steps in the one canonical order (replay generation)
+  Linear,               \* TRUE: installation steps in the one canonical order (replay generation)
+  \* ---- behaviours beyond the listed properties (documented hazards; FALSE/{} in the deciding configs)
+  AllowNested,          \* a thread that already holds a guard asks for another one (self-deadlock)
+  OthersCall,           \* "never" | "atUser" | "always": when threads that hold nothing call patched functions
+  KeepPagesWritable     \* TRUE = what the kernel does (pages stay writable after the first patch)
 
 Free   == "free"
 NoSite == 0
@@ -58,9 +62,10 @@ VARIABLES
   dirty,     \* set of locations written but not yet flushed
   ctr,       \* ctr[site] : the static call counter of a fake! expansion site
   aborted,   \* a panic was raised while panicking (process abort)
-  fault      \* a write hit a page that was not writable / control went wild
+  fault,     \* a write hit a page that was not writable / control went wild
+  inflight   \* inflight[t]: trampoline id a non-holder thread has branched to but not yet executed (0 = none)
 
-vars == <<lock, poisoned, th, inj, cur, dropst, code, orig, tramp, rw, dirty, ctr, aborted, fault>>
+vars == <<lock, poisoned, th, inj, cur, dropst, code, orig, tramp, rw, dirty, ctr, aborted, fault, inflight>>
 
 -----------------------------------------------------------------------------
 (* cells *)
@@ -115,13 +120,14 @@ Init ==
   /\ rw = {} /\ dirty = {}
   /\ ctr = [s \in Sites |-> 0]
   /\ aborted = FALSE /\ fault = FALSE
+  /\ inflight = [t \in Threads |-> 0]
 
 -----------------------------------------------------------------------------
 (* lock *)
 Begin(t, k) ==
   /\ th[t].pc = "idle"
   /\ th' = [th EXCEPT ![t].pc = "waiting", ![t].kind = k, ![t].panicking = FALSE, ![t].panics = 0]
-  /\ UNCHANGED <<lock, poisoned, inj, cur, dropst, code, orig, tramp, rw, dirty, ctr, aborted, fault>>
+  /\ UNCHANGED <<lock, poisoned, inj, cur, dropst, code, orig, tramp, rw, dirty, ctr, aborted, fault, inflight>>
 
 Acquire(t) ==
   /\ th[t].pc = "waiting" /\ lock = Free
@@ -129,7 +135,7 @@ Acquire(t) ==
   /\ lock' = t
   /\ th' = [th EXCEPT ![t].pc = "user"]
   /\ inj' = [inj EXCEPT ![t] = [guards |-> <<>>, verifiers |-> <<>>]]
-  /\ UNCHANGED <<poisoned, cur, dropst, code, orig, tramp, rw, dirty, ctr, aborted, fault>>
+  /\ UNCHANGED <<poisoned, cur, dropst, code, orig, tramp, rw, dirty, ctr, aborted, fault, inflight>>
 
 -----------------------------------------------------------------------------
 (* panics.  A panic raised while the thread is already panicking aborts.   *)
@@ -144,7 +150,7 @@ UserPanic(t) ==
   /\ AtUser(t) /\ ~th[t].panicking
   /\ RaisePanic(t, "drop")
   /\ dropst' = [dropst EXCEPT ![t] = [restored |-> {}, unmapped |-> {}]]
-  /\ UNCHANGED <<lock, poisoned, inj, cur, code, orig, tramp, rw, dirty, ctr, fault>>
+  /\ UNCHANGED <<lock, poisoned, inj, cur, code, orig, tramp, rw, dirty, ctr, fault, inflight>>
 
 -----------------------------------------------------------------------------
 (* installation: context and steps *)
@@ -163,18 +169,18 @@ InstallBegin(t, f, kind, fake, site, n, gate) ==
   /\ cur' = [cur EXCEPT ![t] = [f |-> f, kind |-> kind, fake |-> fake, n |-> n, gate |-> gate,
                                  site |-> site, done |-> {}, tid |-> 0, size |-> 0, saved |-> <<>>]]
   /\ th' = [th EXCEPT ![t].pc = "install"]
-  /\ UNCHANGED <<lock, poisoned, inj, dropst, code, orig, tramp, rw, dirty, ctr, aborted, fault>>
+  /\ UNCHANGED <<lock, poisoned, inj, dropst, code, orig, tramp, rw, dirty, ctr, aborted, fault, inflight>>
 
 InInstall(t) == th[t].pc = "install"
 
 \* will_execute stores the verifier before anything else is looked at (n = -1: no count)
 PushVerifier(t) ==
-  /\ InInstall(t) /\ cur[t].n >= 0 /\ ~Done(t, "verifier") /\ ~Done(t, "gate") /\ LinearOk(t, "verifier")
+  /\ InInstall(t) /\ cur[t].gate # "abandon" /\ cur[t].n >= 0 /\ ~Done(t, "verifier") /\ ~Done(t, "gate") /\ LinearOk(t, "verifier")
   /\ LET s == cur[t].site IN
        /\ cur' = Mark(t, "verifier")
        /\ inj' = [inj EXCEPT ![t].verifiers = Append(@, [site |-> s, n |-> cur[t].n])]
        /\ ctr' = IF ResetCounterOnInstall THEN [ctr EXCEPT ![s] = 0] ELSE ctr
-  /\ UNCHANGED <<lock, poisoned, th, dropst, code, orig, tramp, rw, dirty, aborted, fault>>
+  /\ UNCHANGED <<lock, poisoned, th, dropst, code, orig, tramp, rw, dirty, aborted, fault, inflight>>
 
 \* signature / bool / null checks: refuse before anything is modified
 GatePass(t, size) ==
@@ -182,15 +188,15 @@ GatePass(t, size) ==
   /\ (cur[t].n >= 0 => Done(t, "verifier"))
   /\ size \in PatchSizes
   /\ cur' = [cur EXCEPT ![t].done = @ \cup {"gate"}, ![t].size = size]
-  /\ UNCHANGED <<lock, poisoned, th, inj, dropst, code, orig, tramp, rw, dirty, ctr, aborted, fault>>
+  /\ UNCHANGED <<lock, poisoned, th, inj, dropst, code, orig, tramp, rw, dirty, ctr, aborted, fault, inflight>>
 
 GateRefuse(t) ==
-  /\ InInstall(t) /\ ~Done(t, "gate") /\ cur[t].gate # "ok" /\ LinearOk(t, "gate")
+  /\ InInstall(t) /\ ~Done(t, "gate") /\ cur[t].gate \notin {"ok", "abandon"} /\ LinearOk(t, "gate")
   /\ (cur[t].n >= 0 => Done(t, "verifier"))
   /\ RaisePanic(t, "drop")
   /\ cur' = [cur EXCEPT ![t] = NoCtx]
   /\ dropst' = [dropst EXCEPT ![t] = [restored |-> {}, unmapped |-> {}]]
-  /\ UNCHANGED <<lock, poisoned, inj, code, orig, tramp, rw, dirty, ctr, fault>>
+  /\ UNCHANGED <<lock, poisoned, inj, code, orig, tramp, rw, dirty, ctr, fault, inflight>>
 
 Content(t) ==
   IF cur[t].kind = "bool" THEN [kind |-> "bool", v |-> cur[t].fake]
@@ -202,7 +208,7 @@ AllocOk(t, id) ==
   /\ tramp' = [tramp EXCEPT ![id] = [state |-> "live", content |-> [kind |-> "none"], size |-> cur[t].size,
                                      written |-> FALSE, frees |-> 0, orphan |-> FALSE]]
   /\ cur' = [cur EXCEPT ![t].done = @ \cup {"alloc"}, ![t].tid = id]
-  /\ UNCHANGED <<lock, poisoned, th, inj, dropst, code, orig, rw, dirty, ctr, aborted, fault>>
+  /\ UNCHANGED <<lock, poisoned, th, inj, dropst, code, orig, rw, dirty, ctr, aborted, fault, inflight>>
 
 \* orphaning: a trampoline allocated by an installation that then fails is never freed
 Orphaned(t) == IF cur[t].tid # 0 THEN [tramp EXCEPT ![cur[t].tid].orphan = TRUE] ELSE tramp
@@ -212,25 +218,25 @@ AllocFail(t) ==
   /\ RaisePanic(t, "drop")
   /\ cur' = [cur EXCEPT ![t] = NoCtx]
   /\ dropst' = [dropst EXCEPT ![t] = [restored |-> {}, unmapped |-> {}]]
-  /\ UNCHANGED <<lock, poisoned, inj, code, orig, tramp, rw, dirty, ctr, fault>>
+  /\ UNCHANGED <<lock, poisoned, inj, code, orig, tramp, rw, dirty, ctr, fault, inflight>>
 
 WriteTramp(t) ==
   /\ InInstall(t) /\ Done(t, "alloc") /\ ~Done(t, "wtramp") /\ LinearOk(t, "wtramp")
   /\ tramp' = [tramp EXCEPT ![cur[t].tid].content = Content(t), ![cur[t].tid].written = TRUE]
   /\ dirty' = dirty \cup {TrampLoc(cur[t].tid)}
   /\ cur' = Mark(t, "wtramp")
-  /\ UNCHANGED <<lock, poisoned, th, inj, dropst, code, orig, rw, ctr, aborted, fault>>
+  /\ UNCHANGED <<lock, poisoned, th, inj, dropst, code, orig, rw, ctr, aborted, fault, inflight>>
 
 FlushTramp(t) ==
   /\ InInstall(t) /\ Done(t, "wtramp") /\ ~Done(t, "ftramp") /\ LinearOk(t, "ftramp")
   /\ dirty' = dirty \ {TrampLoc(cur[t].tid)}
   /\ cur' = Mark(t, "ftramp")
-  /\ UNCHANGED <<lock, poisoned, th, inj, dropst, code, orig, tramp, rw, ctr, aborted, fault>>
+  /\ UNCHANGED <<lock, poisoned, th, inj, dropst, code, orig, tramp, rw, ctr, aborted, fault, inflight>>
 
 ReadOrig(t) ==
   /\ InInstall(t) /\ Done(t, "gate") /\ ~Done(t, "read") /\ ~Done(t, "wentry") /\ LinearOk(t, "read")
   /\ cur' = [cur EXCEPT ![t].done = @ \cup {"read"}, ![t].saved = SubSeq(code[cur[t].f], 1, cur[t].size)]
-  /\ UNCHANGED <<lock, poisoned, th, inj, dropst, code, orig, tramp, rw, dirty, ctr, aborted, fault>>
+  /\ UNCHANGED <<lock, poisoned, th, inj, dropst, code, orig, tramp, rw, dirty, ctr, aborted, fault, inflight>>
 
 SpanPages(f, size) ==
   IF MprotectSpan = "range" THEN {<<f, Page(f, i)>> : i \in 1..size} ELSE {<<f, Page(f, 1)>>}
@@ -239,7 +245,7 @@ MprotectOk(t) ==
   /\ InInstall(t) /\ Done(t, "gate") /\ ~Done(t, "mprot") /\ LinearOk(t, "mprot")
   /\ rw' = rw \cup SpanPages(cur[t].f, cur[t].size)
   /\ cur' = Mark(t, "mprot")
-  /\ UNCHANGED <<lock, poisoned, th, inj, dropst, code, orig, tramp, dirty, ctr, aborted, fault>>
+  /\ UNCHANGED <<lock, poisoned, th, inj, dropst, code, orig, tramp, dirty, ctr, aborted, fault, inflight>>
 
 MprotectFail(t) ==
   /\ InInstall(t) /\ Done(t, "gate") /\ ~Done(t, "mprot") /\ ~Done(t, "wentry") /\ LinearOk(t, "mprot")
@@ -247,7 +253,7 @@ MprotectFail(t) ==
   /\ tramp' = Orphaned(t)
   /\ cur' = [cur EXCEPT ![t] = NoCtx]
   /\ dropst' = [dropst EXCEPT ![t] = [restored |-> {}, unmapped |-> {}]]
-  /\ UNCHANGED <<lock, poisoned, inj, code, orig, rw, dirty, ctr, fault>>
+  /\ UNCHANGED <<lock, poisoned, inj, code, orig, rw, dirty, ctr, fault, inflight>>
 
 Writable(f, n) == \A i \in 1..n : <<f, Page(f, i)>> \in rw
 
@@ -263,26 +269,26 @@ WriteEntry(t) ==
             /\ fault' = fault
        ELSE /\ fault' = TRUE /\ UNCHANGED <<code, dirty>>
   /\ cur' = Mark(t, "wentry")
-  /\ UNCHANGED <<lock, poisoned, th, inj, dropst, orig, tramp, rw, ctr, aborted>>
+  /\ UNCHANGED <<lock, poisoned, th, inj, dropst, orig, tramp, rw, ctr, aborted, inflight>>
 
 FlushEntryStep(t) ==
   /\ InInstall(t) /\ Done(t, "wentry") /\ ~Done(t, "fentry") /\ LinearOk(t, "fentry")
   /\ dirty' = IF FlushEntry THEN dirty \ {EntryLoc(cur[t].f, i) : i \in 1..cur[t].size} ELSE dirty
   /\ cur' = Mark(t, "fentry")
-  /\ UNCHANGED <<lock, poisoned, th, inj, dropst, code, orig, tramp, rw, ctr, aborted, fault>>
+  /\ UNCHANGED <<lock, poisoned, th, inj, dropst, code, orig, tramp, rw, ctr, aborted, fault, inflight>>
 
 PushGuard(t) ==
   /\ InInstall(t) /\ Done(t, "wentry") /\ ~Done(t, "push") /\ LinearOk(t, "push")
   /\ inj' = [inj EXCEPT ![t].guards =
                Append(@, [f |-> cur[t].f, saved |-> cur[t].saved, size |-> cur[t].size, tid |-> cur[t].tid])]
   /\ cur' = Mark(t, "push")
-  /\ UNCHANGED <<lock, poisoned, th, dropst, code, orig, tramp, rw, dirty, ctr, aborted, fault>>
+  /\ UNCHANGED <<lock, poisoned, th, dropst, code, orig, tramp, rw, dirty, ctr, aborted, fault, inflight>>
 
 InstallEnd(t) ==
   /\ InInstall(t) /\ Done(t, "push") /\ Done(t, "fentry") /\ Done(t, "ftramp")
   /\ th' = [th EXCEPT ![t].pc = "user"]
   /\ cur' = [cur EXCEPT ![t] = NoCtx]
-  /\ UNCHANGED <<lock, poisoned, inj, dropst, code, orig, tramp, rw, dirty, ctr, aborted, fault>>
+  /\ UNCHANGED <<lock, poisoned, inj, dropst, code, orig, tramp, rw, dirty, ctr, aborted, fault, inflight>>
 
 -----------------------------------------------------------------------------
 (* calls.  Any thread may call any function at any time; what it gets is    *)
@@ -302,7 +308,7 @@ Call(t, f, match) ==
   /\ LET o == CallOutcome(f, match) IN
        /\ ctr' = IF o.bump # 0 THEN [ctr EXCEPT ![o.bump] = @ + 1] ELSE ctr
        /\ fault' = (fault \/ o.res.kind = "wild")
-  /\ UNCHANGED <<lock, poisoned, th, inj, cur, dropst, code, orig, tramp, rw, dirty, aborted>>
+  /\ UNCHANGED <<lock, poisoned, th, inj, cur, dropst, code, orig, tramp, rw, dirty, aborted, inflight>>
 
 CallPanics(t, f, match) ==
   /\ AtUser(t) /\ ~th[t].panicking
@@ -311,7 +317,7 @@ CallPanics(t, f, match) ==
        /\ ctr' = IF o.bump # 0 THEN [ctr EXCEPT ![o.bump] = @ + 1] ELSE ctr
   /\ RaisePanic(t, "drop")
   /\ dropst' = [dropst EXCEPT ![t] = [restored |-> {}, unmapped |-> {}]]
-  /\ UNCHANGED <<lock, poisoned, inj, cur, code, orig, tramp, rw, dirty, fault>>
+  /\ UNCHANGED <<lock, poisoned, inj, cur, code, orig, tramp, rw, dirty, fault, inflight>>
 
 -----------------------------------------------------------------------------
 (* scope exit: guards (restore, unmap, flush) -> verifiers -> lock          *)
@@ -319,7 +325,7 @@ DropBegin(t) ==
   /\ AtUser(t) /\ ~th[t].panicking
   /\ th' = [th EXCEPT ![t].pc = "drop"]
   /\ dropst' = [dropst EXCEPT ![t] = [restored |-> {}, unmapped |-> {}]]
-  /\ UNCHANGED <<lock, poisoned, inj, cur, code, orig, tramp, rw, dirty, ctr, aborted, fault>>
+  /\ UNCHANGED <<lock, poisoned, inj, cur, code, orig, tramp, rw, dirty, ctr, aborted, fault, inflight>>
 
 InDrop(t) == th[t].pc = "drop"
 
@@ -327,7 +333,7 @@ InDrop(t) == th[t].pc = "drop"
 EarlyUnlock(t) ==
   /\ UnlockFirst /\ InDrop(t) /\ lock = t
   /\ lock' = Free /\ poisoned' = (poisoned \/ th[t].panicking)
-  /\ UNCHANGED <<th, inj, cur, dropst, code, orig, tramp, rw, dirty, ctr, aborted, fault>>
+  /\ UNCHANGED <<th, inj, cur, dropst, code, orig, tramp, rw, dirty, ctr, aborted, fault, inflight>>
 
 DropReady(t) == InDrop(t) /\ (UnlockFirst => lock # t)
 
@@ -347,22 +353,26 @@ Restore(t, i) ==
             /\ fault' = fault
        ELSE /\ fault' = TRUE /\ UNCHANGED <<code, dirty>>
   /\ dropst' = [dropst EXCEPT ![t].restored = @ \cup {i}]
-  /\ UNCHANGED <<lock, poisoned, th, inj, cur, orig, tramp, rw, ctr, aborted>>
+  /\ UNCHANGED <<lock, poisoned, th, inj, cur, orig, tramp, rw, ctr, aborted, inflight>>
 
 FlushRestore(t, i) ==
   /\ DropReady(t) /\ i \in dropst[t].restored
   /\ \E k \in 1..Guards(t)[i].size : EntryLoc(Guards(t)[i].f, k) \in dirty
   /\ dirty' = dirty \ {EntryLoc(Guards(t)[i].f, k) : k \in 1..Guards(t)[i].size}
-  /\ UNCHANGED <<lock, poisoned, th, inj, cur, dropst, code, orig, tramp, rw, ctr, aborted, fault>>
+  /\ UNCHANGED <<lock, poisoned, th, inj, cur, dropst, code, orig, tramp, rw, ctr, aborted, fault, inflight>>
 
 Unmap(t, i) ==
   /\ DropReady(t) /\ i \in dropst[t].restored /\ i \notin dropst[t].unmapped
+  \* the user discipline that rules the drop hazard out: no call by another thread is still on its way
+  \* into this trampoline when the injector goes away ("atUser" = others call only while no library
+  \* operation runs, and the holder lets such calls finish before it drops)
+  /\ (OthersCall = "atUser" => \A u \in Threads : inflight[u] # Guards(t)[i].tid)
   /\ LET id == Guards(t)[i].tid IN
        tramp' = IF UnmapOnDrop
                 THEN [tramp EXCEPT ![id].state = "freed", ![id].frees = @ + 1]
                 ELSE tramp
   /\ dropst' = [dropst EXCEPT ![t].unmapped = @ \cup {i}]
-  /\ UNCHANGED <<lock, poisoned, th, inj, cur, code, orig, rw, dirty, ctr, aborted, fault>>
+  /\ UNCHANGED <<lock, poisoned, th, inj, cur, code, orig, rw, dirty, ctr, aborted, fault, inflight>>
 
 GuardsDone(t) ==
   /\ DropReady(t)
@@ -370,7 +380,7 @@ GuardsDone(t) ==
   /\ (FlushEntry => \A i \in 1..Len(Guards(t)) : \A k \in 1..Guards(t)[i].size : EntryLoc(Guards(t)[i].f, k) \notin dirty)
   /\ th' = [th EXCEPT ![t].pc = "verify"]
   /\ inj' = [inj EXCEPT ![t].guards = <<>>]
-  /\ UNCHANGED <<lock, poisoned, cur, dropst, code, orig, tramp, rw, dirty, ctr, aborted, fault>>
+  /\ UNCHANGED <<lock, poisoned, cur, dropst, code, orig, tramp, rw, dirty, ctr, aborted, fault, inflight>>
 
 \* verifiers are checked one after the other, in the order they were stored
 Verify(t) ==
@@ -380,7 +390,7 @@ Verify(t) ==
        THEN RaisePanic(t, "verify")
        ELSE UNCHANGED <<th, aborted>>
   /\ inj' = [inj EXCEPT ![t].verifiers = Tail(@)]
-  /\ UNCHANGED <<lock, poisoned, cur, dropst, code, orig, tramp, rw, dirty, ctr, fault>>
+  /\ UNCHANGED <<lock, poisoned, cur, dropst, code, orig, tramp, rw, dirty, ctr, fault, inflight>>
 
 Unlock(t) ==
   /\ th[t].pc = "verify" /\ Verifiers(t) = <<>>
@@ -394,8 +404,42 @@ Unlock(t) ==
                                      ELSE tramp[id]]
   \* pages are treated as read-only again in the next lifetime: stricter than the kernel (they
   \* stay writable) and therefore conservative for NoFault; it keeps lifetimes independent
-  /\ rw' = IF \A u \in Threads \ {t} : th[u].pc \in {"idle", "waiting"} THEN {} ELSE rw
-  /\ UNCHANGED <<inj, cur, dropst, code, orig, dirty, ctr, aborted, fault>>
+  /\ rw' = IF ~KeepPagesWritable /\ \A u \in Threads \ {t} : th[u].pc \in {"idle", "waiting"} THEN {} ELSE rw
+  /\ UNCHANGED <<inj, cur, dropst, code, orig, dirty, ctr, aborted, fault, inflight>>
+
+-----------------------------------------------------------------------------
+(* behaviours beyond the listed properties *)
+
+\* a builder that is dropped without a terminal call (will_execute..., will_return_...) is a no-op
+Abandon(t) ==
+  /\ InInstall(t) /\ cur[t].done = {} /\ cur[t].gate = "abandon"
+  /\ th' = [th EXCEPT ![t].pc = "user"]
+  /\ cur' = [cur EXCEPT ![t] = NoCtx]
+  /\ UNCHANGED <<lock, poisoned, inj, dropst, code, orig, tramp, rw, dirty, ctr, aborted, fault, inflight>>
+
+\* InjectorPP::new() / prevent() on a thread that already holds a guard blocks on its own lock for ever
+NestedBegin(t) ==
+  /\ AllowNested /\ AtUser(t) /\ lock = t
+  /\ th' = [th EXCEPT ![t].pc = "selfdead"]
+  /\ UNCHANGED <<lock, poisoned, inj, cur, dropst, code, orig, tramp, rw, dirty, ctr, aborted, fault, inflight>>
+
+\* a thread that holds nothing calls a function: the branch at the entry and the trampoline are two
+\* separate instructions, so the call is two steps (the documented hazard at drop lies between them)
+OtherMayCall(u) ==
+  /\ th[u].pc \in {"idle", "waiting"} /\ inflight[u] = 0
+  /\ \/ OthersCall = "always"
+     \/ OthersCall = "atUser" /\ \A t \in Threads : th[t].pc \notin {"install", "drop", "verify"}
+OtherEnter(u, f) ==
+  /\ OtherMayCall(u)
+  /\ LET c == code[f][1] IN
+       /\ c[1] = "p"          \* the entry branches to a trampoline
+       /\ inflight' = [inflight EXCEPT ![u] = c[2]]
+  /\ UNCHANGED <<lock, poisoned, th, inj, cur, dropst, code, orig, tramp, rw, dirty, ctr, aborted, fault>>
+OtherExec(u) ==
+  /\ inflight[u] # 0
+  /\ fault' = (fault \/ tramp[inflight[u]].state # "live" \/ ~tramp[inflight[u]].written)
+  /\ inflight' = [inflight EXCEPT ![u] = 0]
+  /\ UNCHANGED <<lock, poisoned, th, inj, cur, dropst, code, orig, tramp, rw, dirty, ctr, aborted>>
 
 -----------------------------------------------------------------------------
 Alive == ~aborted /\ ~fault
@@ -406,7 +450,7 @@ Next ==
        \/ Acquire(t)
        \/ UserPanic(t)
        \/ \E f \in Funcs, kind \in {"jump", "bool"}, fk \in Fakes \cup BoolSet, st \in Sites \cup {NoSite},
-            n \in NVals, g \in {"ok", "refuse"} :
+            n \in NVals, g \in {"ok", "refuse", "abandon"} :
             /\ (kind = "bool") = (fk \in BoolSet)
             /\ (st = NoSite) = (n = -1)
             /\ (kind = "bool" => n = -1)
@@ -420,6 +464,8 @@ Next ==
        \/ DropBegin(t) \/ EarlyUnlock(t)
        \/ \E i \in 1..MaxTramps : Restore(t, i) \/ FlushRestore(t, i) \/ Unmap(t, i)
        \/ GuardsDone(t) \/ Verify(t) \/ Unlock(t)
+       \/ Abandon(t) \/ NestedBegin(t) \/ OtherExec(t)
+       \/ \E f \in Funcs : OtherEnter(t, f)
 
 Spec == Init /\ [][Next]_vars
 
@@ -454,9 +500,13 @@ FlushedAtUser == (\A t \in Threads : th[t].pc \in {"idle", "waiting", "user"})
 \* C01 (design level)
 NoFault == ~fault
 
+\* hazards (expected to be REACHABLE when the corresponding switch is on: see `check.py selftest`)
+NoSelfDeadlock == \A t \in Threads : th[t].pc # "selfdead"
+WX == (\A t \in Threads : th[t].pc \in {"idle", "waiting"}) => rw = {}
+
 TypeOK ==
   /\ lock \in Threads \cup {Free}
-  /\ \A t \in Threads : th[t].pc \in {"idle", "waiting", "user", "install", "drop", "verify", "dead"}
+  /\ \A t \in Threads : th[t].pc \in {"idle", "waiting", "user", "install", "drop", "verify", "dead", "selfdead"}
   /\ \A id \in TrampIds : tramp[id].state \in {"unmapped", "live", "freed"}
 
 =============================================================================
